@@ -210,6 +210,9 @@ impl Rng {
 
 // executable representation invariant of an arena red-black tree: links consistent, BST order, red-black colours with
 // equal black heights, sentinel unlinked, every slot exactly one of sentinel / in tree / free
+// which property a broken executable invariant speaks about: the shape of the tree (links, order, colours: C02), the slot
+// accounting (free list, lost slots: C11), or both (a slot reached twice, the sentinel linked into the tree)
+fn inv_tags(e: &str) -> &'static str { if e.starts_with("slots: ") { "C11" } else if e.starts_with("both: ") { "C02,C11" } else { "C02" } }
 fn wf_exec(n_slots: usize, root: u32, unused: &[u32],
            node: &dyn Fn(u32) -> (u32, u32, u32, bool), key: &dyn Fn(u32) -> i64) -> Result<usize, String> {
     let mut in_tree = vec![false; n_slots];
@@ -219,8 +222,8 @@ fn wf_exec(n_slots: usize, root: u32, unused: &[u32],
             node: &dyn Fn(u32) -> (u32, u32, u32, bool), key: &dyn Fn(u32) -> i64, depth: usize) -> Result<(usize, bool), String> {
         if i == EMPTY_REF { return Ok((0, false)); }
         if i as usize >= n_slots { return Err(format!("link {} out of the arena", i)); }
-        if i == 0 { return Err("sentinel slot 0 is linked into the tree".to_string()); }
-        if in_tree[i as usize] { return Err(format!("slot {} reached twice", i)); }
+        if i == 0 { return Err("both: sentinel slot 0 is linked into the tree".to_string()); }
+        if in_tree[i as usize] { return Err(format!("both: slot {} reached twice", i)); }
         if depth > 200 { return Err("path longer than 200".to_string()); }
         in_tree[i as usize] = true; *count += 1;
         let (p, l, r, red) = node(i);
@@ -236,12 +239,12 @@ fn wf_exec(n_slots: usize, root: u32, unused: &[u32],
     walk(root, EMPTY_REF, i64::MIN, i64::MAX, n_slots, &mut in_tree, &mut count, node, key, 0)?;
     let mut free = vec![false; n_slots];
     for &u in unused {
-        if u == 0 || u as usize >= n_slots { return Err(format!("free list holds {}", u)); }
-        if free[u as usize] { return Err(format!("slot {} is on the free list twice", u)); }
-        if in_tree[u as usize] { return Err(format!("slot {} is free and in the tree", u)); }
+        if u == 0 || u as usize >= n_slots { return Err(format!("slots: free list holds {}", u)); }
+        if free[u as usize] { return Err(format!("slots: slot {} is on the free list twice", u)); }
+        if in_tree[u as usize] { return Err(format!("slots: slot {} is free and in the tree", u)); }
         free[u as usize] = true;
     }
-    if count + unused.len() + 1 != n_slots { return Err(format!("{} slots: {} in tree + {} free + sentinel (a slot was lost)", n_slots, count, unused.len())); }
+    if count + unused.len() + 1 != n_slots { return Err(format!("slots: {} slots: {} in tree + {} free + sentinel (a slot was lost)", n_slots, count, unused.len())); }
     // height bound 2*log2(n+1)+1
     Ok(count)
 }
@@ -353,7 +356,7 @@ fn explore_key(seed: u64, steps: usize, nkeys: i32) -> Result<(), String> {
             }
         }
         match key_tree_wf(&t) {
-            Err(e) => { let m = format!("[C02,C11{}] {}-> invariant broken: {}", if hist.ends_with("clear(); ") { ",C12" } else { "" }, hist, e); if PAST_INV.load(std::sync::atomic::Ordering::Relaxed) { if inv_fail.is_none() { inv_fail = Some(m); } } else { return Err(m); } }
+            Err(e) => { let m = format!("[{}{}] {}-> invariant broken: {}", inv_tags(&e), if hist.ends_with("clear(); ") { ",C12" } else { "" }, hist, e); if PAST_INV.load(std::sync::atomic::Ordering::Relaxed) { if inv_fail.is_none() { inv_fail = Some(m); } } else { return Err(m); } }
             Ok(n) => {
                 peak = peak.max(n).max(model.len());
                 if t.store.buffer.len() > 4 * peak + 64 { return Err(format!("[C11] {}-> {} slots allocated for a peak of {} entries", hist, t.store.buffer.len(), peak)); }
@@ -431,7 +434,7 @@ fn explore_map(seed: u64, steps: usize, nkeys: i32) -> Result<(), String> {
             }
         }
         match map_tree_wf(&t) {
-            Err(e) => { let m = format!("[C02,C11{}] {}-> invariant broken: {}", if hist.ends_with("clear(); ") { ",C12" } else { "" }, hist, e); if PAST_INV.load(std::sync::atomic::Ordering::Relaxed) { if inv_fail.is_none() { inv_fail = Some(m); } } else { return Err(m); } }
+            Err(e) => { let m = format!("[{}{}] {}-> invariant broken: {}", inv_tags(&e), if hist.ends_with("clear(); ") { ",C12" } else { "" }, hist, e); if PAST_INV.load(std::sync::atomic::Ordering::Relaxed) { if inv_fail.is_none() { inv_fail = Some(m); } } else { return Err(m); } }
             Ok(n) => { if n != model.len() { return Err(format!("[C04,C11] {}-> {} entries stored, {} expected", hist, n, model.len())); } }
         }
         for (kk, vv) in model.iter() { if t.get_value(*kk).map(|v| v.get()) != Some(*vv) { return Err(format!("[C04] {}-> key {} lost or altered", hist, kk)); } }
@@ -507,7 +510,7 @@ fn explore_set(seed: u64, steps: usize, nkeys: i32) -> Result<(), String> {
             _ => { if t.is_empty() != model.is_empty() { return Err(format!("[C05] {}-> is_empty {} with {} entries", hist, t.is_empty(), model.len())); } }
         }
         match set_tree_wf(&t) {
-            Err(e) => { let m = format!("[C02,C11{}] {}-> invariant broken: {}", if hist.ends_with("clear(); ") { ",C12" } else { "" }, hist, e); if PAST_INV.load(std::sync::atomic::Ordering::Relaxed) { if inv_fail.is_none() { inv_fail = Some(m); } } else { return Err(m); } }
+            Err(e) => { let m = format!("[{}{}] {}-> invariant broken: {}", inv_tags(&e), if hist.ends_with("clear(); ") { ",C12" } else { "" }, hist, e); if PAST_INV.load(std::sync::atomic::Ordering::Relaxed) { if inv_fail.is_none() { inv_fail = Some(m); } } else { return Err(m); } }
             Ok(n) => { if n != model.len() { return Err(format!("[C05,C11] {}-> {} entries stored, {} expected", hist, n, model.len())); } }
         }
     }
@@ -613,7 +616,7 @@ fn explore_key_bulk(seed: u64) -> Result<(), String> {
         note(&hist);
         for k in keys.iter() { t.insert(KK(*k, 10), *k + 7, 0); }
         let time = if expire { t.insert(KK(-1, 100), 6, 20); 20 } else { 5 };
-        let stored = match key_tree_wf(&t) { Ok(c) => c, Err(e) => return Err(format!("[C02,C11] {}-> invariant broken: {}", hist, e)) };
+        let stored = match key_tree_wf(&t) { Ok(c) => c, Err(e) => return Err(format!("[{}] {}-> invariant broken: {}", inv_tags(&e), hist, e)) };
         if t.store.buffer.len() > 4 * (n + 1) + 64 { return Err(format!("[C11] {}-> {} slots allocated for a peak of {} entries", hist, t.store.buffer.len(), n + 1)); }
         let want: Vec<i32> = if expire { vec![6] } else { (0..n as i32).map(|k| k + 7).collect() };
         let a = t.into_ordered_vec(time);
@@ -647,8 +650,8 @@ fn explore_bulk_handles(trees: bool) -> Result<(), String> {
     let mut mt = MapTree::<i32, i32>::new(0);
     let mut st = SetTree::<i32, SV>::new(0);
     for k in 0..n { mt.insert(k, k + 1); st.insert(sv(k, k + 1)); }
-    if let Err(e) = map_tree_wf(&mt) { return Err(format!("[C02,C11] {}-> invariant broken: {}", hist, e)); }
-    if let Err(e) = set_tree_wf(&st) { return Err(format!("[C02,C11] {}-> invariant broken: {}", hist, e)); }
+    if let Err(e) = map_tree_wf(&mt) { return Err(format!("[{}] {}-> invariant broken: {}", inv_tags(&e), hist, e)); }
+    if let Err(e) = set_tree_wf(&st) { return Err(format!("[{}] {}-> invariant broken: {}", inv_tags(&e), hist, e)); }
     let mut h = st.first_index_less(&0);
     for k in 0..n {
         if mt.get_value(k) != Some(&(k + 1)) { return Err(format!("[C04] {}-> map tree lost key {}", hist, k)); }
@@ -681,7 +684,7 @@ fn explore(which: &str, seeds: u64, steps: usize) -> Result<u64, String> {
                 let tags: Vec<&str> = e.trim_start_matches('[').split(']').next().unwrap_or("").split(',').collect();
                 if !tags.iter().any(|t| focus.iter().any(|f| f == t)) { continue; }
             }
-            if past && e.starts_with("[C02,C11") {
+            if past && e.contains("-> invariant broken: ") {
                 // only the invariant is broken in this history: keep looking for a history in which it becomes observable
                 if first_inv.is_none() { first_inv = Some(format!("seed {}: {}", seed, e)); }
                 continue;
